@@ -117,7 +117,7 @@ def run(tier):
     base = [gen.zt_file(r_) for _ in range(150)] + [gen.zt_file(r_, f) for f in gen.ZT_FAULTS] + zt.repo_zone_files()
     import c14
     base += [c14.random_file(r_) for _ in range(150)]
-    n = 20000 if tier == "quick" else 300000
+    n = 20000 if tier == "quick" else 150000
     for _ in range(n):
         texts.append(mutate(r_, r_.choice(base)))
     for _ in range(n // 10):
